@@ -85,7 +85,7 @@ impl Stream for ConstExprs
 	}
 	fn count(&self, tier: Tier) -> u64
 	{
-		tier.pick(1200, 40_000)
+		tier.pick(2500, 40_000)
 	}
 	fn choice_len(&self) -> usize
 	{
@@ -147,7 +147,7 @@ impl Stream for Layouts
 	}
 	fn count(&self, tier: Tier) -> u64
 	{
-		tier.pick(1200, 40_000)
+		tier.pick(2500, 40_000)
 	}
 	fn choice_len(&self) -> usize
 	{
@@ -179,7 +179,7 @@ impl Stream for WordLimits
 	}
 	fn count(&self, tier: Tier) -> u64
 	{
-		tier.pick(1500, 40_000)
+		tier.pick(3000, 40_000)
 	}
 	fn choice_len(&self) -> usize
 	{
@@ -341,7 +341,7 @@ impl Stream for ArrayLengths
 	}
 	fn count(&self, tier: Tier) -> u64
 	{
-		tier.pick(600, 20_000)
+		tier.pick(1500, 20_000)
 	}
 	fn choice_len(&self) -> usize
 	{
